@@ -218,6 +218,22 @@ func runC07(c *core.Ctx) {
 		check("alias/long-memo-ids", "aliasing", many)
 	}
 
+	// 3b. tuples that share backing storage (t[:n] is a sub-slice of t's array in the interpreter):
+	// sharing storage must not make them share an encoding.
+	{
+		base := starlark.Tuple{starlark.MakeInt(1), starlark.MakeInt(4), starlark.MakeInt(2), starlark.String("x"), starlark.None}
+		for lo := 0; lo <= len(base); lo++ {
+			for hi := lo; hi <= len(base); hi++ {
+				check(fmt.Sprintf("slices/full-then-%d-%d", lo, hi), "tuple-slices-sharing-storage", starlark.NewList([]starlark.Value{base, base[lo:hi]}))
+				check(fmt.Sprintf("slices/%d-%d-then-full", lo, hi), "tuple-slices-sharing-storage", starlark.Tuple{base[lo:hi], base, base[lo:hi]})
+			}
+		}
+		d := starlark.NewDict(2)
+		d.SetKey(base[:2], base[:3])
+		d.SetKey(base[:1], base)
+		check("slices/as-dict-keys", "tuple-slices-sharing-storage", d)
+	}
+
 	// 4. random nested values.
 	n := c.N(20000, 2000000)
 	rg := &sval.Gen{R: c.Rand("random"), Host: true}
